@@ -1,3 +1,20 @@
-/-  C11/Theorems — the ledger for property C11 (every theorem here is audited).  Placeholder. -/
+/-
+  C11/Theorems — the ledger for property C11.  Every `theorem` in this file is audited
+  (`#print axioms` ⊆ {propext, Classical.choice, Quot.sound}) on every run.
+-/
+import OttoVerif.C11.Spec
 namespace OttoVerif.C11.Thm
+open OttoVerif.F64 OttoVerif.C11
+
+/-- the gap never exceeds ten characters (ES5 15.12.3 steps 6-7), for every `space` argument -/
+theorem spec_gap_le_10 (sp : Space) : (Spec.gapOf sp).length ≤ 10 := by
+  cases sp with
+  | str s => simp [Spec.gapOf]; omega
+  | num x =>
+    cases x with
+    | nan => simp [Spec.gapOf, Spec.gapCount]
+    | inf s => cases s <;> simp [Spec.gapOf, Spec.gapCount]
+    | fin s m e => simp only [Spec.gapOf, Spec.gapCount, List.length_replicate]; split <;> omega
+  | _ => simp [Spec.gapOf]
+
 end OttoVerif.C11.Thm
